@@ -158,6 +158,8 @@ def report(ctx: Ctx, results, live, sc_infos, bads, errs, details):
                               "gamma": [c["gamma"] for c in py["cols"]],
                               "match_weight": "inf" if py["score"] == "inf" else math.log2(py["score"])}})
         ents = sorted({f["entry"].split(":")[0] for f in fails}) or ["?"]
+        if ents == ["?"] and seen:
+            continue
         if once("score:" + ",".join(ents)):
             ctx.violation("entry point output differs from the shared Fellegi-Sunter scorer: " + ", ".join(ents),
                           {"case": case, "failing_rows": fails}, features(case, {"entries": ents, "claim": "score"}))
@@ -216,7 +218,7 @@ def run(ctx: Ctx):
                     ctx.violation("entry points disagree with predict() on the same record pair", {"case": case, "disagreements": bad[:3]},
                                   features(case, {"claim": "agreement", "entries": sorted({b["entry"].split(":")[0] for b in bad})}))
             return
-    nd, ns, nx = (14, 5, 4) if ctx.quick else (150, 50, 40)
+    nd, ns, nx = (22, 8, 6) if ctx.quick else (150, 50, 40)
     cases = [gen_case(ctx.rng, "duckdb") for _ in range(nd)] + [gen_case(ctx.rng, "sqlite") for _ in range(ns)] + \
             [gen_case(ctx.rng, "duckdb" if i % 2 else "sqlite", exact=True) for i in range(nx)]
     out = run_cases(ctx, cases)
